@@ -274,11 +274,12 @@ def gen_bin1d_case(rng, tier):
         mono = _strict(xs)
         fam = "nonmono" if not mono else fam
     pool = coord_pool(rng, sorted(xs)) if n > 1 else [xs[0], xs[0] - 1, xs[0] + 1] + _nbrs(xs[0])
-    if len(pool) > 70:
-        keep = [p for p in pool if p in xs]
+    cap = 70 if tier == "quick" else 36
+    if len(pool) > cap:
+        keep = [p for p in pool if p in xs][:cap]
         rest = [p for p in pool if p not in xs]
         rng.shuffle(rest)
-        pool = keep + rest[:70 - len(keep)]
+        pool = keep + rest[:cap - len(keep)]
     return {"op": "bin1d", "arr": xs, "vals": pool, "fam": fam, "full": n <= 12 and rng.random() < 0.5}
 
 
@@ -289,7 +290,7 @@ def _dims_for(rng, tier):
 
 def gen_hist_case(rng, tier, elem=False):
     dim = _dims_for(rng, tier)
-    cap = {1: 12, 2: 12, 3: 6 if tier == "quick" else 8}[dim]
+    cap = {1: 12, 2: 12, 3: 6}[dim]
     axes, fams = [], []
     for _ in range(dim):
         fam = rng.choice(FAMILIES)
@@ -300,7 +301,7 @@ def gen_hist_case(rng, tier, elem=False):
         fams.append(fam)
     if dim == 3:
         # keep the number of cells moderate
-        while (len(axes[0]) - 1) * (len(axes[1]) - 1) * (len(axes[2]) - 1) > (400 if tier == "quick" else 1400):
+        while (len(axes[0]) - 1) * (len(axes[1]) - 1) * (len(axes[2]) - 1) > 400:
             k = max(range(3), key=lambda i: len(axes[i]))
             axes[k] = axes[k][:len(axes[k]) - 2] if len(axes[k]) > 3 else axes[k][:2]
     flat = dim == 1 and rng.random() < 0.7
@@ -359,7 +360,11 @@ def gen_hist_case(rng, tier, elem=False):
     case["bad"] = bad
     # fills
     pools = [coord_pool(rng, a, extra=3) for a in axes]
-    nf = rng.randint(25, 60) if dim > 1 else rng.randint(30, 70)
+    if tier == "quick":
+        nf = rng.randint(25, 60) if dim > 1 else rng.randint(30, 70)
+    else:
+        # many lighter cases: the thorough stream is also sampled by escalated quick runs and must stay memory-lean
+        nf = rng.randint(8, 28) if dim > 1 else rng.randint(10, 36)
     fills = []
     odd_forms = rng.random() < (0.1 if elem else 0.25)     # cases that also try coordinates of the wrong form
     for _ in range(nf):
